@@ -909,6 +909,10 @@ func (j *c07Judge) runOnce(sc *c07Scenario, seed int64) *c07Fail {
 	}
 	r.ev("end")
 	j.rep.Count("leakchecks", 1)
+	if !r.ordinary() && (out == c07Outcome{"ret", "R1"}) {
+		// vacuity guard of the value dimension: the call returned (v, nil) with v identical to the reducer's single write
+		j.rep.Count("value."+sc.Val+".returned", 1)
+	}
 
 	// ---- exactly once / bounded workers (scenarios without cancellation only)
 	if sc.MapAll {
@@ -948,6 +952,10 @@ func (j *c07Judge) runOnce(sc *c07Scenario, seed int64) *c07Fail {
 			}
 			return &c07Fail{key: "C07:exactly-once:" + k,
 				msg: fmt.Sprintf("%s: reducer received %v, mappers wrote %v", sc, got, want)}
+		}
+		if !r.ordinary() && len(want) > 0 {
+			// vacuity guard: mapper writes of this value kind were compared (as a multiset) with what the reducer received
+			j.rep.Count("value."+sc.Val+".delivered", len(want))
 		}
 	}
 	return nil
